@@ -85,6 +85,7 @@ type vf09Provider struct {
 	holdInterim bool
 	anyHeldInt  bool
 	held        []*vf09Held
+	startHeld   map[string]bool // sessions one of whose Starts was held back
 }
 
 func (p *vf09Provider) nHeld() int {
@@ -107,6 +108,10 @@ func (p *vf09Provider) StartAccounting(_ context.Context, s *auth.Session) error
 	if p.holdStart {
 		h := &vf09Held{sid: s.SessionID, kind: 'S', release: make(chan struct{})}
 		p.held = append(p.held, h)
+		if p.startHeld == nil {
+			p.startHeld = map[string]bool{}
+		}
+		p.startHeld[s.SessionID] = true
 		p.mu.Unlock()
 		<-h.release
 	} else {
@@ -369,12 +374,18 @@ type vf09Mon struct {
 	// snt: every Interim / Stop >= the last value SENT in the bracket (acknowledged or not)
 	// ord: the arrival stream is a prefix of (Start Interim* Stop)*  (meaningful for a never-restored session)
 	prevSent [4]uint64
-	opened   bool
 	snt, ord bool
+	// ord: the bracket WITH restore - 0 closed, 1 quiet (restored, nothing sent yet), 2 open
+	bst int
+	// excuses named in the verdict: the accounting was dropped by an orphan prune / a Start was held back
+	pruned, delayed bool
 }
 
 func (m *vf09Mon) event(kind byte, calls []vf09Call) {
 	nstops := 0
+	if kind == 'R' && m.bst == 0 {
+		m.bst = 1
+	}
 	for _, c := range calls {
 		if c.resp != 0 {
 			continue
@@ -387,10 +398,10 @@ func (m *vf09Mon) event(kind byte, calls []vf09Call) {
 			if m.inside {
 				m.brk = false
 			}
-			if m.opened {
+			if m.bst == 2 {
 				m.ord = false
 			}
-			m.opened = true
+			m.bst = 2
 			m.inside = true
 			m.prev = [4]uint64{}
 			m.prevSent = [4]uint64{}
@@ -401,10 +412,10 @@ func (m *vf09Mon) event(kind byte, calls []vf09Call) {
 			if !geS {
 				m.snt = false
 			}
-			if !m.opened {
+			if m.bst == 0 {
 				m.ord = false
 			}
-			m.opened = true
+			m.bst = 2
 			m.prevSent = v
 			if c.ok {
 				m.prev = v
@@ -417,10 +428,10 @@ func (m *vf09Mon) event(kind byte, calls []vf09Call) {
 			if !geS {
 				m.snt = false
 			}
-			if !m.opened {
+			if m.bst == 0 {
 				m.ord = false
 			}
-			m.opened = false
+			m.bst = 0
 			m.inside = false
 			m.prev = [4]uint64{}
 			m.prevSent = [4]uint64{}
@@ -437,6 +448,15 @@ func (m *vf09Mon) event(kind byte, calls []vf09Call) {
 			m.stp = false
 		}
 		m.armed = true
+	case 'P':
+		// a Stop may close a pruned orphan (at most one, only if the session was announced or restored from a
+		// checkpoint... i.e. armed); it disarms
+		if (m.armed && nstops > 1) || (!m.armed && nstops > 0) {
+			m.stp = false
+		}
+		if nstops > 0 {
+			m.armed = false
+		}
 	default:
 		if nstops > 0 {
 			m.stp = false
@@ -491,7 +511,7 @@ func vf09Quiesce(g0 int) bool { return vf09QuiesceF(func() int { return g0 }) }
 
 // vf09QuiesceF: the target may move while waiting (a delayed call registers itself in the provider fake)
 func vf09QuiesceF(target func() int) bool {
-	deadline := time.Now().Add(5 * time.Second)
+	deadline := time.Now().Add(20 * time.Second)
 	for n := 0; ; n++ {
 		if runtime.NumGoroutine() <= target() {
 			return true
@@ -849,7 +869,19 @@ func vf09RunCase(line string, g0 int) (res string) {
 				}
 			}
 			if !fed || len(mine) > 0 {
-				mons[j].event('o', mine)
+				k := byte('o')
+				if members[0][0] == "P" {
+					k = 'P'
+				}
+				mons[j].event(k, mine)
+			}
+			if members[0][0] == "P" && members[0][1] == "1" {
+				w.c.acctCacheMu.RLock()
+				_, still := w.c.acctCache[w.sess[j].id]
+				w.c.acctCacheMu.RUnlock()
+				if openBefore[j] && !still {
+					mons[j].pruned = true
+				}
 			}
 		}
 	}
@@ -861,7 +893,19 @@ func vf09RunCase(line string, g0 int) (res string) {
 		return "0"
 	}
 	for j := range mons {
-		vs = append(vs, fmt.Sprintf("v%d=%s%s%s%s%s", j, bit(mons[j].brk), bit(mons[j].stp), bit(mons[j].mono), bit(mons[j].snt), bit(mons[j].ord)))
+		w.ap.mu.Lock()
+		if w.ap.startHeld[w.sess[j].id] {
+			mons[j].delayed = true
+		}
+		w.ap.mu.Unlock()
+		x := ""
+		if mons[j].pruned {
+			x += "P"
+		}
+		if mons[j].delayed {
+			x += "D"
+		}
+		vs = append(vs, fmt.Sprintf("v%d=%s%s%s%s%s%s", j, bit(mons[j].brk), bit(mons[j].stp), bit(mons[j].mono), bit(mons[j].snt), bit(mons[j].ord), x))
 	}
 	d := "racy"
 	if !racy {
